@@ -268,7 +268,7 @@ pub fn check(c: &Case, obs: &mut Obs) -> Result<(), String> {
 pub fn property() -> Property {
     Property {
         id: "C10",
-        rule: "Canonical distinfo files: RCS line '$NetBSD$' or '$NetBSD: ' + arbitrary bytes without LF; blank line; 0-9 files with pairwise different names of 1-3 '/'-separated components of 1-12 bytes (no ASCII white space, no '.'/'..' components), weighted towards bytes >= 0x80 (C3 A0, C3 85, lone E9, A0, 85, FF), '( ) = # $ ~' and NUL; patch names patch-* / emul-<w>-patch-* and the exceptions (patch-local-*, *.orig, *.rej, *~, *.tar.*); each name goes to the section its classification says and classifies the same on its basename and as a whole. Per file 1-4 checksums (any of the six algorithms, repeats allowed; hex of the right length or an arbitrary non-blank token), distfiles with optional size from {0, 1, u64::MAX, random}. Oracle: (a) from_bytes(file).as_bytes() == file byte for byte and the parsed entries equal the model; (b) a Distinfo assembled through new/set_rcsid/insert(Entry::new) in a generated insertion order writes the canonical layout, and parsing that gives the same rcsid, names, checksum order, sizes and types; Entry::as_bytes equals the entry's slice. Non-trivial = >= 2 files and a name with a byte >= 0x80 or a sub-directory. Distinct = distinct cases.",
+        rule: "Canonical distinfo files: RCS line '$NetBSD$' or '$NetBSD: ' + arbitrary bytes without LF; blank line; 0-9 files with pairwise different names of 1-3 '/'-separated components of 1-12 bytes (no ASCII white space, no '.'/'..' components), weighted towards bytes >= 0x80 (C3 A0, C3 85, lone E9, A0, 85, FF), '( ) = # $ ~' and NUL; patch names patch-* / emul-<w>-patch-* and the exceptions (patch-local-*, *.orig, *.rej, *~, *.tar.*); each name goes to the section its classification says and classifies the same on its basename and as a whole. Per file 1-4 checksums (any of the six algorithms, repeats allowed; hex of the right length or an arbitrary non-blank token), distfiles with optional size from {0, 1, u64::MAX, random}. Oracle: (a) from_bytes(file).as_bytes() == file byte for byte and the parsed entries equal the model; (b) a Distinfo assembled through new/set_rcsid/insert(Entry::new) in a generated insertion order writes the canonical layout, and parsing that gives the same rcsid, names, checksum order, sizes and types; Entry::as_bytes equals the entry's slice. Non-trivial = >= 2 files and a name with a byte >= 0x80 or a sub-directory. Distinct = distinct cases. Generators also draw, at low weight, tokens from the source-literal dictionary (every string / byte / character literal of the library's own source, collected at build time and filtered by this domain's character class) (as name components); names may have a leading './', doubled / leading / trailing '/' or an interior '.' component; documents get names that are a prefix / suffix of another name ('.asc', '.sig', 'lib'+name, name minus a byte).",
         assumptions: vec![
             "names whose basename and whole name classify differently are outside the generated domain",
             "RCS Id through the API is unset or starts with '$NetBSD: '",
